@@ -40,6 +40,7 @@ def main() -> int:
             data = json.loads(Path(a.replay).read_text())
             return mod.replay(data)
         R = core.Run(prop, a.tier, seed)
+        R.scratch = a.no_proof
         if not a.no_proof:
             R.prove()
         res = mod.run(R) or ({}, {})
